@@ -119,7 +119,9 @@ def probe_running(wd, name, doc, ports):
         p.start(wait_ports=[ports[0]], timeout=8)
     except vlib.ToolError as e:
         # refusing to start with an error message is fine; dying in a panic / on a signal is not
-        rc = p.p.returncode if p.p is not None else None
+        rc = p.p.poll() if p.p is not None else None
+        if rc is None and p.p is not None:
+            p.kill9()           # still running but its API never came up: do not leave it behind
         if p.panicked() or (rc is not None and (rc < 0 or rc in (134, 139))) or "panicked at" in str(e):
             return "crashed-at-start", (str(p.panicked()) or str(e))[-300:]
         return "did-not-start", str(e)[-200:]
